@@ -127,3 +127,26 @@ Fixpoint sheets_eqb (a : list sheet) (b : list (str * str)) : bool :=
 Definition ods_case (c : list (str * list row_node) * list (str * str) * list (Z * str)) : bool :=
   let '(tables, sheets, us) := c in
   sheets_eqb (read_ods_sheets tables) sheets && units_eqb (ods_units (read_ods_sheets tables)) us.
+
+From S2T Require Import C03.Order.
+
+Definition slide_order_case (c : list relationship * list (option str) * list str) : bool :=
+  let '(rels, ids, want) := c in strs_eqb (compute_slide_order rels ids) want.
+
+Definition resolve_case (c : str * str * str) : bool :=
+  let '(b, t, want) := c in str_eqb (resolve_part_name b t) want.
+
+Fixpoint chapters_eqb (a : list chapter) (b : list (Z * str)) : bool :=
+  match a, b with
+  | [], [] => true
+  | x :: a', (n, t) :: b' => Z.eqb (ch_number x) n && str_eqb (ch_text x) t && chapters_eqb a' b'
+  | _, _ => false
+  end.
+
+(* read_epub on a generated package: (ZIP members, recorded chapter texts per member, opf dir, manifest items
+   (namespaced / any), spine idrefs (namespaced / any), [(chapter_number, text)]) *)
+Definition epub_case (c : list str * list (str * str) * str * list manifest_item * list manifest_item
+                          * list str * list str * list (Z * str)) : bool :=
+  let '(members, texts, opf_dir, ns_items, any_items, ns_refs, any_refs, want) := c in
+  chapters_eqb (read_epub_chapters members (fun h => assoc h texts) opf_dir
+                                   (parse_manifest ns_items any_items) (parse_spine ns_refs any_refs)) want.
